@@ -49,11 +49,17 @@ class Agg:
         self.samples = []
         self.errors = []
         self.sigs = set()
+        self.cross = Counter()
+        self.cross_notes = []
 
     def add_path(self, ctx, status, err, keep_sample):
         self.nsolve += ctx.nsolve
         self.solve_s += ctx.solve_s
         self.decisions += len(ctx.decisions)
+        for name, outcome, note in ctx.cross:
+            self.cross[outcome] += 1
+            if outcome != "agree" and len(self.cross_notes) < 5:
+                self.cross_notes.append(f"{name}: {outcome} ({note})")
         if status == "aborted":
             self.aborted += 1
             return
@@ -96,6 +102,8 @@ class Agg:
                 self.samples.append(s)
         self.errors.extend(o.errors)
         self.sigs |= o.sigs
+        self.cross.update(o.cross)
+        self.cross_notes.extend(o.cross_notes[: max(0, 5 - len(self.cross_notes))])
 
 
 def _short(decisions):
